@@ -51,11 +51,13 @@ def transition_check(sc, tier, seed, prop, models, quick_n, rule, thorough_n=Non
     for wmod in walks:
         num = walk_n[0] if tier == 'quick' else walk_n[1]
         cfg = mc_cfg(wmod, devs).replace('Depth = 8', 'Depth = %d' % walk_depth)
-        out, st = run_tlc(sc, wmod, cfg, workers=1, timeout=900,
+        out, st = run_tlc(sc, wmod, cfg, workers=1, timeout=600,
                           extra=['-simulate', 'num=%d' % num, '-depth', str(3 * walk_depth + 5), '-seed', str(seed)])
-        if st['rc'] != 0 or st['violated']:
-            raise Inconclusive('TLC simulation failed on %s:\n%s' % (wmod, '\n'.join(st['tail'][-20:])))
         wcs = walk_cases(tlc_json_lines(out))
+        # (the simulation is given 10 minutes; what it has printed by then is used, as long as it is at least the
+        #  quick tier's number of walks)
+        if st['violated'] or (st['rc'] != 0 and not (st['rc'] in (137, 124) and len(wcs) >= walk_n[0])):
+            raise Inconclusive('TLC simulation failed on %s:\n%s' % (wmod, '\n'.join(st['tail'][-20:])))
         if not wcs:
             raise Inconclusive('TLC simulation of %s produced no walk' % wmod)
         for i, c in enumerate(wcs):
@@ -232,7 +234,7 @@ def c10(sc, tier, seed):
 
 
 def c14(sc, tier, seed):
-    return transition_check(sc, tier, seed, 'C14', ['MC_multi', 'MC_multi2'], walks=['MC_multi_walk'], quick_n=22000, walk_n=(400, 4000),
+    return transition_check(sc, tier, seed, 'C14', ['MC_multi', 'MC_multi2', 'MC_multi3'], walks=['MC_multi_walk'], quick_n=22000, walk_n=(400, 4000),
                             rule='TLC enumerates all 21952 programs of length 3 of two connections over {SELECT 0/1/15/16/-1, FLUSHDB, FLUSHALL, DBSIZE, SET/GET of a key name that holds different values in databases 0 and 1, KEYS *, CLIENT SETNAME/GETNAME, HELLO 3}, checks SessionIsolation, NamespaceIsolation and FlushGlobal on the ideal reading, and replays every program on real connections (replies, all databases after every step, and finally each connection\'s selected db / protocol / name / MULTI state); plus random walks of depth 8 of three connections (also HELLO 2/4, MULTI/EXEC, invalid names).')
 
 
@@ -299,7 +301,7 @@ def lin_check(sc, tier, seed, prop, walk_module, n_hist, depth, rule, assumption
 
 
 def c08(sc, tier, seed):
-    return lin_check(sc, tier, seed, 'C08', 'MC_conc', (64, 1500), 24,
+    return lin_check(sc, tier, seed, 'C08', 'MC_conc', (64, 500), 24, hammer_rounds=(2, 8), rule=
                      'TLC simulation of MC_conc yields walks of 24 steps of 3 connections over a contended vocabulary (read-modify-write on shared keys, multi-key commands, producer-tagged values); each walk is split into one program per connection; the programs run concurrently on the real server (alternating request/response and fully pipelined mode, released from a barrier); in addition the model\'s "hammer" programs (3-4 connections each repeating one contended read-modify-write / multi-key command 60-150 times, pipelined; MULTI/EXEC blocks against MGET observers) are run; TLC (Trace_Lin, depth-first) searches every interleaving of the specification\'s atomic steps for one that explains all replies, per-connection and real-time order, and the final state. Non-trivial = history with overlapping operations of different connections.')
 
 
@@ -946,6 +948,8 @@ def block_check(sc, tier, seed, prop, select, rule, quick_n, assumptions=()):
             (must if k not in seen else rest).append(c)
             seen.add(k)
         cases = must + rest[:max(0, quick_n - len(must))]
+    elif len(cases) > 24000:
+        cases = cases[:24000]        # thorough: a seeded sample of this size where the tree is larger (about 15 min of replay)
     cases = scen + cases
     for i, c in enumerate(cases):
         c['id'] = i
@@ -998,6 +1002,8 @@ def replay_path(path):
         exe = build_harness(sc)
         case = rec['case']
         engine = rec.get('engine', 'replay')
+        if engine in ('walks', 'dict_steering'):
+            engine = 'replay'           # (same engine, other source of cases)
         if engine not in ('replay', 'block'):
             print(json.dumps(rec.get('result'), indent=1)[:4000])
             log('this record comes from the %s engine; re-run the property check to reproduce it' % engine)
